@@ -11,6 +11,9 @@ def run(tier, runner):
     r_gg = shape.grow_guard(progs + real)
     r_geo, facts = shape.geo(progs)
     r_st = ownership.steal(progs)
+    swp = matrix.programs(runner, matrix.swap2_points(tier))
+    r_eo = ownership.each_other(swp)
+    r_eo.require(10, 'adjustEachOtherCapacity instantiations')
     r_cd = lifetime.check_dom(progs + real)
     r_st.require(6, 'hand-over functions')
     r_cd.require(20, 'constructs into container storage')
@@ -18,11 +21,11 @@ def run(tier, runner):
     r_gg.require(7, 'grow call sites')
     r_geo.require(2, 'SafeNextCapacity')
     return {
-        'results': [r_cs, r_gg, r_geo, r_st, r_cd],
+        'results': [r_cs, r_gg, r_geo, r_st, r_cd, r_eo],
         'explanation': 'CAP-STABLE: call-graph exclusion - from erase/clear/pop_back/assign/resize/insert/push_back/emplace*/append/copy-assignment no '
                        'path reaches an allocator request, release, shrink or resetToSmall except through grow, so these operations can neither lower '
                        'capacity nor move the buffer when the result fits.  GROW-GUARD: every grow is conditioned on capacity()<needed or size()==capacity() '
-                       'and grows to the compared request (reserve included: after reserve(n) capacity()>=n by GEO exact path).  GEO: grow never lowers capacity.  STEAL: moving from / swapping heap-backed vectors hands the buffer over without any element operation.  CHECK-DOM: every growth of the size is dominated by a capacity check of the destination (structural half of size() <= capacity()).',
+                       'and grows to the compared request (reserve included: after reserve(n) capacity()>=n by GEO exact path).  GEO: grow never lowers capacity.  STEAL: moving from / swapping heap-backed vectors hands the buffer over without any element operation; EACH-OTHER: swap2 adjusts capacities only where the buffers cannot simply be exchanged (canSwapDynStorage false), so two heap-backed vectors are never reallocated by a swap.  CHECK-DOM: every growth of the size is dominated by a capacity check of the destination (structural half of size() <= capacity()).',
         'assumptions': ['does not decide size()<=capacity()<=max_size() as a run-time inequality (structural half: CHECK-DOM under C01/C08)'],
         'trusted': ['resolved call graph of the amcsa plugin', 'libstdc++ 12 headers'],
         'coverage': {'growth_facts_per_size_type': facts},
